@@ -618,3 +618,102 @@ def check_head_cache(chk, m, K, member, rule="T3.head-cache"):
         verdict = None
     _CACHE_VERDICT[key] = verdict
     return verdict
+
+
+# ---------------------------------------------------------------------------------------------
+# queue links are written by the list operations only
+# ---------------------------------------------------------------------------------------------
+
+LINK_WRITERS_EXEMPT = {
+    "fibre_init": "public initialiser: the caller hands in a descriptor that is on no queue (documented contract), it is not reachable "
+                  "from the scheduler",
+    "fibre_eventq_init": "initialises the descriptor embedded in a new event queue through fibre_init",
+}
+
+
+def check_link_ownership(chk, m, K, rule="S11.link-owned-by-list"):
+    """A fibre is on the run queue, the timer queue or neither, and which one is recorded in link.next alone.  The running fibre
+    can be on the run queue (it, another fibre or an interrupt's drained request made it runnable), so a write to its link member
+    from scheduler code cuts the queue behind it: every fibre queued after it is lost without a trace.  Hence: outside the list
+    operations (called with the node) and the exempt initialisers, no store / memset / memcpy in fibre.c covers the link member of
+    a fibre_t."""
+    from .. import flow
+    lo, ln = K.fibre["link.next"]
+    n_writes = 0
+    exempt_seen = 0
+    # a static helper all of whose callers are initialisers is part of the initialisers
+    callers = {}
+    for fn in m.defined_functions():
+        for i in fn.insts():
+            if i.op == "call" and isinstance(i.callee, str):
+                callers.setdefault(i.callee, set()).add(fn.name)
+    exempt = set(LINK_WRITERS_EXEMPT)
+    changed = True
+    while changed:
+        changed = False
+        for fn in m.defined_functions():
+            if fn.name not in exempt and fn.internal and callers.get(fn.name) and callers[fn.name] <= exempt:
+                exempt.add(fn.name)
+                changed = True
+    for fn in m.defined_functions():
+        chk.note_fn(fn)
+        for i in fn.insts():
+            if i.op == "store":
+                ptr, size = i.ops[1], i["size"]
+            elif i.op == "call" and isinstance(i.callee, str) and (i.callee.startswith(("llvm.memset", "llvm.memcpy", "llvm.memmove"))
+                                                                   or i.callee in ("memset", "memcpy", "memmove")):
+                ptr = i.args[0]
+                size = i.args[2].uval if i.args[2].is_const_int() else None
+            elif i.op == "call" and isinstance(i.callee, str) and i.callee in exempt and fn.name not in exempt:
+                chk.ob(rule, "%s %s" % (fn.name, i.loc), False,
+                       "%s calls the initialiser %s on a fibre the scheduler already knows: it clears the whole descriptor, link "
+                       "included, while the fibre can be on the run queue (made runnable by itself, another fibre or an interrupt "
+                       "request) - every fibre queued behind it is cut off" % (fn.name, i.callee), i.loc, fn.name)
+                continue
+            else:
+                continue
+            try:
+                pp = flow.resolve_ptr(ptr, m)
+            except AnalysisError:
+                continue
+            # find a view of the pointer chain that is a fibre descriptor (or a list node embedded in one)
+            bases = []
+            v = ptr
+            for _ in range(32):
+                ty = v.ty or ""
+                if ty in ("%struct.fibre*", "%struct.fibre_t*"):
+                    try:
+                        bases.append(("fibre", flow.resolve_ptr(v, m).off))
+                    except AnalysisError:
+                        pass
+                elif ty in ("%struct.list_node*", "%struct.list_node_t*"):
+                    try:
+                        bases.append(("node", flow.resolve_ptr(v, m).off))
+                    except AnalysisError:
+                        pass
+                if v.k == "inst" and v.inst is not None and v.inst.op in ("getelementptr", "bitcast"):
+                    v = v.inst.ops[0]
+                    continue
+                break
+            if not bases or pp.var:
+                continue
+            n_writes += 1
+            hit = None
+            for kind, boff in bases:
+                rel = pp.off - boff + (lo if kind == "node" else 0)
+                if size is None or (rel < lo + ln and lo < rel + size):
+                    hit = (kind, rel)
+            if hit is None:
+                continue
+            if fn.name in exempt:
+                exempt_seen += 1
+                continue
+            chk.ob(rule, "%s %s" % (fn.name, i.loc), False,
+                   "%s writes %s bytes at offset %d of a fibre descriptor, which covers its queue link (offset %d): a fibre can be on the run "
+                   "queue while it runs or is being handled here (made runnable by itself, by another fibre or by an interrupt request), "
+                   "and overwriting its link cuts off every fibre queued behind it; only the list operations may write a link"
+                   % (i.callee if i.op == "call" else "a store", size if size is not None else "a variable number of", hit[1], lo),
+                   i.loc, fn.name)
+    chk.ob(rule, "fibre.c", True, "%d writes into fibre descriptors outside the initialisers examined: none covers link.next "
+           "(initialisers writing it: %d, %s)" % (n_writes - exempt_seen, exempt_seen, ", ".join(sorted(LINK_WRITERS_EXEMPT))), "", "")
+    chk.expect(rule.split(".")[0], "writes into fibre descriptors examined for link ownership", n_writes, 4)
